@@ -64,15 +64,22 @@ class Rec:
         self.align = 1
 
     def text(self):
-        body = ""
+        body, pre = "", ""
         for n, t, w in self.fields:
-            body += "  %s%s;\n" % (t.cdecl(n), " : %d" % w if w else "")
+            td = getattr(t, "td", None)
+            if td and not w:
+                # the member's type through a typedef (a chain of two for every other one): transparent for every rule
+                pre += "typedef %s;\n" % t.cdecl(td + "_0")
+                pre += "typedef %s_0 %s;\n" % (td, td)
+                body += "  %s %s;\n" % (td, n)
+            else:
+                body += "  %s%s;\n" % (t.cdecl(n), " : %d" % w if w else "")
         attrs = []
         if self.packed:
             attrs.append("packed")
         if self.aligned:
             attrs.append("aligned(%d)" % self.aligned)
-        return "%s %s {\n%s}%s;\n" % ("union" if self.union else "struct", self.name, body, (" __attribute__((%s))" % ", ".join(attrs)) if attrs else "")
+        return pre + "%s %s {\n%s}%s;\n" % ("union" if self.union else "struct", self.name, body, (" __attribute__((%s))" % ", ".join(attrs)) if attrs else "")
 
     def compute_align(self, env):
         a = 1 if self.packed else max([t.alignment(env) for _, t, _ in self.fields] + [1])
@@ -144,6 +151,8 @@ def gen_graph(r, n):
                     dims.append(r.choice([2, 3]))
                 for d in reversed(dims):
                     t = Node("TArr", elem=t, n=d)
+            if r.random() < 0.2 and not (t.kind == "TArr" and base_of(t).kind == "TFnPtr") and not (t.kind == "TArr" and t.n == 0):
+                t.td = "td_%d_%d" % (i, k)
             rec.fields.append((nm, t, None))
         if shape == "bigunit" and not rec.union:
             rec.fields = [("b%d" % k, Node("TInt", spell="unsigned long long", al=8), 64) for k in range(5)] + rec.fields[:1]
@@ -563,6 +572,23 @@ Eval vm_compute in map (fun r => match r with (t, _, _, _, _) => map (fun a => c
             if rc2 != 0:
                 ck.violation("C08-bindings-rejected:E0277:supertrait-option-gap", "`%s` alone derives a trait whose supertrait is not derived: every struct is rejected by rustc (C08/Properties.v supertraits_open_refuted)" % fl[0],
                              {"header": "struct S { int a; };", "flags": fl, "rustc": e2e.rustc_errors(se, 2)})
+        # ---- _Complex members: __BindgenComplex<T> derives PartialEq but not PartialOrd
+        open(os.path.join(d, "c.h"), "w").write("struct C { double _Complex z; int a; };\ntypedef float _Complex cf;\nstruct D { cf w[2]; };\n")
+        for fl in (["--with-derive-partialeq"], ["--with-derive-partialeq", "--with-derive-partialord"], ["--with-derive-partialeq", "--with-derive-eq", "--with-derive-hash", "--impl-debug", "--impl-partialeq"]):
+            rc, out, err = sh2([bindgen, os.path.join(d, "c.h"), "--no-layout-tests"] + fl, timeout=60)
+            open(os.path.join(d, "c.rs"), "w").write("#![allow(warnings)]\n" + out + "\nfn main() {}\n")
+            rc2, so, se = sh2(["rustc", "--edition", "2021", "--emit", "metadata", "-o", "c.rmeta", "c.rs"], cwd=d, timeout=120)
+            ck.evaluations += 1
+            ck.nontrivial.add(("complex", tuple(fl)))
+            for n in ("C", "D"):
+                got = emitted(out, n)[0] or set()
+                bad = sorted(set(got) & {"Eq", "Ord", "Hash"})
+                if bad:
+                    ck.violation("C08-float-derive:complex", "a struct holding a _Complex member derives %s" % bad, {"header": open(os.path.join(d, "c.h")).read(), "flags": fl, "derives": sorted(got)})
+            if rc2 != 0:
+                why = "complex-lacks-partialord" if ("--with-derive-partialord" in fl and re.search(r"can't compare `__BindgenComplex", se)) else "complex-other"
+                ck.violation("C08-bindings-rejected:E0277:" + why, "rustc rejects the derives of a struct holding a _Complex member",
+                             {"header": open(os.path.join(d, "c.h")).read(), "flags": fl, "rustc": e2e.rustc_errors(se, 2)})
     finally:
         shutil.rmtree(tmp, ignore_errors=True)
 
